@@ -19,12 +19,14 @@ import (
 
 func rc(b []byte) io.ReadCloser { return io.NopCloser(bytes.NewReader(b)) }
 
+// clip renders a feed inside a one-line witness.
 func clip(b []byte) string {
-	const max = 1500
-	if len(b) > max {
-		return string(b[:max]) + "…(" + strconv.Itoa(len(b)) + " bytes)"
+	const max = 3000
+	s := strings.ReplaceAll(string(b), "\n", " ")
+	if len(s) > max {
+		return s[:max] + "…(" + strconv.Itoa(len(b)) + " bytes)"
 	}
-	return string(b)
+	return s
 }
 
 // ---------------------------------------------------------------- Alpine secdb
@@ -74,7 +76,7 @@ func renderSecdb(rel, repo string, pkgs []secdbPkg) []byte {
 	doc := map[string]any{
 		"distroversion": rel, "reponame": repo, "urlprefix": "https://dl-cdn.alpinelinux.org/alpine",
 		"apkurl": "{{urlprefix}}/{{distroversion}}/{{reponame}}/{{arch}}/{{pkg.name}}-{{pkg.ver}}.apk",
-		"archs": []string{"x86_64", "aarch64"},
+		"archs":  []string{"x86_64", "aarch64"},
 	}
 	ps := []pkgJSON{}
 	for _, p := range pkgs {
@@ -122,6 +124,7 @@ func runSecdb(r *hx.Run, g *gen, cfg hx.Config) {
 				}
 			}
 		}
+		r.Op("reset", "ok", false)
 		vs, err, obs := parseWithTimeout(func(ctx context.Context) ([]*claircore.Vulnerability, error) { return p.Parse(ctx, rc(feed)) })
 		out := obs
 		if obs == "" {
@@ -289,6 +292,7 @@ func runDebian(r *hx.Run, g *gen, cfg hx.Config) {
 				}
 			}
 		}
+		r.Op("reset", "ok", false)
 		vs, err, obs := parseWithTimeout(func(ctx context.Context) ([]*claircore.Vulnerability, error) { return p.Parse(ctx, rc(feed)) })
 		out := obs
 		if obs == "" {
@@ -422,6 +426,7 @@ func runAws(r *hx.Run, g *gen, cfg hx.Config) {
 				}
 			}
 		}
+		r.Op("reset", "ok", false)
 		vs, err, obs := parseWithTimeout(func(ctx context.Context) ([]*claircore.Vulnerability, error) { return u.Parse(ctx, rc(feed)) })
 		out := obs
 		if obs == "" {
